@@ -3,6 +3,8 @@
 From Coq Require Import List Sorted.
 From Coq Require String.
 Require Import SV.Base.StrOrder SV.Model.Intersect SV.Facts.IntersectFacts.
+Require Import SV.Model.Kinds SV.Model.Syntax SV.Model.Expand SV.Model.Sem SV.Model.Run SV.Facts.TblNames SV.Facts.SemFacts
+               SV.Facts.ProgramFacts SV.Facts.TablesFacts.
 Import ListNotations.
 Import String.StringSyntax.
 Local Open Scope string_scope.
@@ -29,6 +31,27 @@ Check c05_overlap_check_panics_iff_shared :
   forall ls : list (list String.string), Forall (StronglySorted slt) ls ->
     (assert_no_intersection ls = Panic <-> shares ls).
 
+(* Part B: the published lists. Each part's list is sorted ... *)
+Theorem c05_published_list_sorted : forall c ifs k t,
+  enum_kind k = true -> In t (tables_of c ifs k) -> StronglySorted sle t.
+Proof. exact tables_sorted. Qed.
+
+(* ... and is exactly the set of names its messages serialise under (serde's rule on the variant identifier) *)
+Theorem c05_published_list_is_wire_names : forall c ifs k, enum_kind k = true ->
+  tables_of c ifs k = map (fun e => sort (map vd_wire e)) (parts_of c ifs k).
+Proof. exact tables_are_wire_names. Qed.
+
+(* A + B: for a program whose parts each have pairwise distinct message names (rustc rejects duplicate
+   variants), the const block panics - the contract fails to compile - iff two different parts expose
+   a message under the same wire name. *)
+Theorem c05_contract_compiles_iff_no_shared_name : forall c ifs k,
+  enum_kind k = true -> Forall (fun e => NoDup (map vd_wire e)) (parts_of c ifs k) ->
+  (assert_no_intersection (tables_of c ifs k) = Panic <->
+   exists i j n, i <> j /\ In n (map vd_wire (nth i (parts_of c ifs k) [])) /\ In n (map vd_wire (nth j (parts_of c ifs k) []))) /\
+  (assert_no_intersection (tables_of c ifs k) = Done <->
+   ~ exists i j n, i <> j /\ In n (map vd_wire (nth i (parts_of c ifs k) [])) /\ In n (map vd_wire (nth j (parts_of c ifs k) []))).
+Proof. exact overlap_check_on_program. Qed.
+
 (* Non-vacuity: sorted inputs exist on both sides of the iff. *)
 Example c05_example_shared :
   Forall (StronglySorted slt) [["a"; "c"]; []; ["b"; "c"; "d"]] /\
@@ -46,3 +69,6 @@ Proof. split; [|reflexivity]. repeat constructor. Qed.
 Print Assumptions c05_overlap_check_panics_iff_shared.
 Print Assumptions c05_overlap_check_passes_iff_disjoint.
 Print Assumptions c05_overlap_check_total.
+Print Assumptions c05_published_list_sorted.
+Print Assumptions c05_published_list_is_wire_names.
+Print Assumptions c05_contract_compiles_iff_no_shared_name.
